@@ -3,6 +3,7 @@ package c12
 import (
 	"fmt"
 	"strings"
+	"unicode"
 
 	"verif/mc/core"
 )
@@ -36,6 +37,56 @@ var seps = []string{"", " ", "\n", " ;c\n", "\n\n", ";c\n"}
 var sepNames = []string{"empty", "sp", "nl", "cmt", "nlnl", "gluecmt"}
 
 const refSep = 1 // a single space
+
+// The language's whitespace class is whatever the scanner's AcceptSpace
+// skips: unicode.IsSpace.  It is enumerated here from the Go unicode tables
+// (never from the code under test), and every member becomes a separator of
+// its own, next to CRLF, bare CR, tab runs, mixtures and comments wrapped in
+// or ended by them.  On the unchanged tree a comment runs to LF, so a
+// comment separator always ends in LF (";c\r a" would be ONE comment).
+var (
+	wsRunes     []rune // every rune with unicode.IsSpace
+	wsAnyGap    []int  // indices into seps: usable in every layout gap
+	wsAfterBrkt []int  // indices into seps: only right after a bracket (glued comment)
+	wsAll       string // all of wsRunes in one run
+)
+
+const baseSeps = 6
+
+func init() {
+	add := func(name, sep string, afterBracketOnly bool) {
+		seps = append(seps, sep)
+		sepNames = append(sepNames, name)
+		if afterBracketOnly {
+			wsAfterBrkt = append(wsAfterBrkt, len(seps)-1)
+		} else {
+			wsAnyGap = append(wsAnyGap, len(seps)-1)
+		}
+	}
+	for r := rune(0); r <= unicode.MaxRune; r++ {
+		if unicode.IsSpace(r) {
+			wsRunes = append(wsRunes, r)
+		}
+	}
+	for _, r := range wsRunes {
+		wsAll += string(r)
+		if r == ' ' || r == '\n' {
+			continue // already base separators
+		}
+		add(fmt.Sprintf("ws:U+%04X", r), string(r), false)
+	}
+	add("ws:crlf", "\r\n", false)
+	add("ws:crlf-crlf", "\r\n\r\n", false)
+	add("ws:tab-tab", "\t\t", false)
+	add("ws:sp-tab-cr-lf", " \t\r\n", false)
+	add("ws:every-space-rune", wsAll, false)
+	for _, r := range wsRunes {
+		add(fmt.Sprintf("ws:cmt-wrapped-in-U+%04X", r), string(r)+";c\n"+string(r), false)
+	}
+	add("ws:cmt-crlf", " ;c\r\n", false)
+	add("ws:cmt-crlf-tab", "\t;c\r\n\t", false)
+	add("ws:gluecmt-crlf", ";c\r\n", true)
+}
 
 var (
 	optsPrefix  = []int{0, 1, 2, 3, 4}
@@ -111,6 +162,7 @@ type seqOpts struct {
 	symText string  // symctx: the plugged spelling itself
 	nontriv bool    // register accepted reference texts as distinct non-trivial cases
 	nvar    int     // number of uniform variants to try (0 = all four)
+	ws      bool    // also every whitespace-class separator, one gap at a time, and whitespace frames
 }
 
 func (o *seqOpts) label(t tok) string {
@@ -258,6 +310,26 @@ func (w *seqWorker) process(toks []tok, o *seqOpts) {
 				gaps[g] = refSep
 			}
 		}
+		if o.ws && pa == 0 {
+			// every separator of the whitespace class, one gap at a time
+			for _, g := range layoutGaps {
+				try1 := func(op int) {
+					gaps[g] = op
+					if text, s, bad := try(); bad {
+						layoutFail(text, s, o.family()+":layout:"+sepNames[op])
+					}
+				}
+				for _, op := range wsAnyGap {
+					try1(op)
+				}
+				if len(optsOf[g]) == len(optsAfterBr) {
+					for _, op := range wsAfterBrkt {
+						try1(op)
+					}
+				}
+				gaps[g] = refSep
+			}
+		}
 		if o.level == lvProduct && len(layoutGaps) >= 2 {
 			// every assignment that changes two or more gaps
 			idx := make([]int, len(layoutGaps))
@@ -342,17 +414,34 @@ func (w *seqWorker) process(toks []tok, o *seqOpts) {
 			reset()
 		}
 		if o.frames && pa == 0 && n > 0 && toks[0].kind != tHash {
-			for fi, fr := range [][2]string{{"\n", "\n"}, {" ;c\n", " ;c"}, {"", "\n\n;c\n"}} {
+			frames := [][2]string{{"\n", "\n"}, {" ;c\n", " ;c"}, {"", "\n\n;c\n"}}
+			if o.ws {
+				frames = append(frames, [2]string{wsAll, wsAll}, [2]string{"\t;c\r\n", "\r\n;c\r"}, [2]string{"\r", "\r"})
+			}
+			for fi, fr := range frames {
 				w.buf = render(w.buf, toks, gaps, fr[0], fr[1])
 				text := string(w.buf)
 				s := w.readOne(text, o)
 				w.t.trans++
 				if !sameReading(s, ref) {
+					if fi >= 3 {
+						// whitespace-class frames: the separator is the identity of the class
+						layoutFail(text, s, fmt.Sprintf("%s:layout:ws:frame%d", o.family(), fi))
+						continue
+					}
 					layoutFail(text, s, fmt.Sprintf("%s:layout:frame%d:first=%s,last=%s", o.domain, fi, o.label(toks[0]), o.label(toks[n-1])))
 				}
 			}
 		}
 	}
+}
+
+// family is the domain without its context id: "symctx:paren" -> "symctx".
+func (o *seqOpts) family() string {
+	if i := strings.IndexByte(o.domain, ':'); i >= 0 {
+		return o.domain[:i]
+	}
+	return o.domain
 }
 
 func (o *seqOpts) labels(toks []tok) string {
